@@ -212,7 +212,7 @@ func RunFields(conf core.Config, patterns ...string) *core.Result {
 	}
 	for k := range FieldsExempt {
 		if !used[k] {
-			res.Brokenf("DECODE.fields: stale exemption %s", k)
+			res.Stale("DECODE.fields: stale exemption %s", k)
 		}
 	}
 	return res
